@@ -53,7 +53,11 @@ def in_fork(func, *args, timeout=60.0, journal_fd=None):
                 res = ("ok", func(*args))
             except BaseException as e:  # noqa
                 res = ("err", "".join(traceback.format_exception(type(e), e, e.__traceback__))[-6000:])
-            data = pickle.dumps(res, protocol=4)
+            try:
+                data = pickle.dumps(res, protocol=4)
+            except BaseException as e:  # noqa
+                data = pickle.dumps(("err", "result of %s could not be pickled: %s" % (getattr(func, "__name__", func), "".join(
+                    traceback.format_exception(type(e), e, e.__traceback__))[-6000:])), protocol=4)
             view = memoryview(data)
             while view:
                 n = os.write(w, view)
